@@ -115,16 +115,46 @@ def execute_run_isolated(mod, seed: int, run_index: int, tier: str):
             limit = int(getattr(mod, "CPU_LIMIT", 30)) + 20
             resource.setrlimit(resource.RLIMIT_CPU, (limit, limit + 5))
             res = execute_run(mod, seed, run_index, tier)
-            with os.fdopen(w, "wb") as f:
-                pickle.dump(res, f)
+            payload = pickle.dumps(res)
+            os.write(w, len(payload).to_bytes(8, "big"))
+            view = memoryview(payload)
+            while view:
+                n = os.write(w, view[:65536])
+                view = view[n:]
         except BaseException:  # noqa: BLE001
             code = 3
         finally:
             os._exit(code)
     os.close(w)
-    with os.fdopen(r, "rb") as f:
-        data = f.read()
-    _, status = os.waitpid(pid, 0)
+    # length-prefixed message: never wait for EOF (processes started by the run, e.g. a multiprocessing
+    # manager, inherit the write end of the pipe and may outlive the child)
+    import select
+
+    buf = bytearray()
+    need = None
+    status = None
+    while True:
+        ready, _, _ = select.select([r], [], [], 0.2)
+        if ready:
+            chunk = os.read(r, 1 << 20)
+            if chunk:
+                buf += chunk
+                if need is None and len(buf) >= 8:
+                    need = int.from_bytes(buf[:8], "big")
+                if need is not None and len(buf) >= 8 + need:
+                    break
+                continue
+            break  # end of file: every writer is gone
+        if status is None:
+            done, st = os.waitpid(pid, os.WNOHANG)
+            if done:
+                status = st
+        elif not ready:
+            break  # the child is gone and nothing more is coming
+    os.close(r)
+    if status is None:
+        _, status = os.waitpid(pid, 0)
+    data = bytes(buf[8:8 + need]) if need is not None and len(buf) >= 8 + need else b""
     if data:
         try:
             return pickle.loads(data)
